@@ -7,6 +7,7 @@
    codecs are libraries plus api/types.go (property C08); at this level their only visible behaviour is whether a line
    decodes: encoding/json cannot decode a pin with a non-empty origin list (S19), anything else decodes to itself. *)
 From V Require Import Base.Common Model.C14_Backup.
+From Coq Require Import Permutation.
 Local Open Scope N_scope.
 
 Definition pinv := (N * N)%type.                       (* content, number of origins *)
@@ -66,6 +67,12 @@ Definition crdt_import (ls : list jline) (s : pstate) : pstate * imp_res :=
 
 (* two stores hold the same pinset *)
 Definition same_pinset (a b : pstate) : Prop := forall c, aget c a = aget c b.
+
+(* vocabulary of the statements: a store holds one value per key; the datastore's query order is any permutation;
+   no pin of the pinset carries origins (the guard of S19) *)
+Definition keys_nodup (s : pstate) : Prop := NoDup (map fst s).
+Definition order_oracle (ord : pstate -> list entry) : Prop := forall s, Permutation (ord s) s.
+Definition no_origins (s : pstate) : Prop := forallb decodable s = true.
 
 (* canonical listing for comparisons: sorted by cid *)
 Fixpoint ins_entry (e : entry) (l : list entry) : list entry :=
